@@ -120,7 +120,7 @@ CHECKS.append(dict(
 
 CHECKS.append(dict(
     id='C14',
-    text='Four generated sub-checks. (1) Synthetic results objects built by the library\'s own RawResults / bioResults (K = 1-5; '
+    text='Six generated sub-checks. (1) Synthetic results objects built by the library\'s own RawResults / bioResults (K = 1-5; '
          'Hessian negative definite, singular, indefinite or absent; optional bootstrap, bounds, null model, panel, Monte-Carlo) are '
          'pickled and reloaded, twice, and through estimate(recycle=True); every table, statistic, report and raw field must be '
          'bit-identical. (2) Any subset of the 27 configuration parameters set to admissible values (both booleans, all algorithm '
@@ -129,7 +129,9 @@ CHECKS.append(dict(
          'read back as tables / fixed columns: every parameter name and value is required. (4) Histories of up to 18 '
          'output-generating operations in a directory pre-seeded with colliding names: a sha256 snapshot of every earlier file '
          'stays unchanged and every reported name is new. (5) Histories of one Parameters object starting from hand-written '
-         'partial TOML files (set_value / dump_file / read_file): after every dump a fresh reader holds every value.',
+         'partial TOML files (set_value / dump_file / read_file): after every dump a fresh reader holds every value. (6) Long version '
+         'histories of one output name (name.ext, name~00 .. name~(k-1), k up to 1005 / 1200, gaps, stray numbers) followed by repeated '
+         'get_new_file_name + create: the returned name never exists, never repeats, earlier files unchanged.',
     note='Trusts the stub model behind RawResults (attributes copied from a real estimation), pickle/numpy determinism within one '
          'process, tomlkit parsing; value agreement to 3 significant digits (1e-11 relative in F12). NaN configuration values and '
          'directories/symlinks as colliding names are outside the domain. Reports of Hessian-free results are a listed known finding.',
@@ -193,7 +195,9 @@ CHECKS.append(dict(
          'the replacement named in its warning on identically built receivers and arguments: result or exception, state of receiver '
          'and arguments, files written, exactly one extra DeprecationWarning, and the purpose rule for the declared target (same '
          'normalised name / "Same as X" docstring). Renamed keywords are called with values unlike the default and the whole '
-         'resulting configuration is compared. Each quick run sweeps every receiver class 32 times per alias.',
+         'resulting configuration is compared. Each quick run sweeps every receiver class 32 times per alias, receiver after receiver '
+         'in one process: a difference that a fresh process does not show is re-run as a sequence in two fresh processes (names of the '
+         'last pair in both orders) and reported when it shows every time (alias state leaking between receiver classes).',
     note='Trusts the markers and closure left by biogeme/deprecated.py; arguments come from per-signature generators; engine '
          'refusals (RuntimeError or process death) are one equivalence class; differences must reproduce on separately forked '
          'processes; floats to 1e-10, timestamps and ids normalised; retargeting is visible only through the name/docstring purpose '
